@@ -3,6 +3,7 @@ import Goflow.Gen.C05
 import Goflow.Gen.C03
 import Goflow.Gen.C04
 import Goflow.Gen.C07
+import Goflow.Gen.C01
 import Goflow.Gen.C15
 import Goflow.Gen.C20
 import Goflow.Gen.C17
@@ -172,6 +173,7 @@ def genOps (prop : String) (seed n : Nat) : List String :=
   | "C03" => Gen.run seed (Gen.C03.gen n)
   | "C04" => Gen.run seed (Gen.C04.gen n)
   | "C07" => Gen.run seed (Gen.C07.gen n)
+  | "C01" => Gen.run seed (Gen.C01.gen n)
   | "C15" => Gen.run seed (Gen.C15.gen n)
   | "C20" => Gen.run seed (Gen.C20.gen n)
   | "C17" => Gen.run seed (Gen.C17.gen n)
